@@ -122,7 +122,7 @@ fn huge(curve: Curve, n: usize, col: &mut Collector) -> Result<(), Failure> {
         }
     }
     ops.push(Op::Closure(body));
-    let prog = Program { curve, tlabel: 0, pre: vec![], ops, owned: false, cap_p: Cap::Exact, cap_v: Cap::Exact, party_cap: 1, seed: n as u64, pc: 0 };
+    let prog = Program { curve, tlabel: 0, pre: vec![], ops, owned: false, cap_p: Cap::Exact, cap_v: Cap::Exact, party_cap: 1, seed: n as u64, pc: 0, gens: 0 };
     let p = with_curve!(curve, G => {
         let p = run_prover::<G>(&prog, &ProveOpts::default());
         if !p.model.satisfied() { return Ok(()); }
@@ -171,7 +171,7 @@ fn extreme(curve: Curve, kind: u8, col: &mut Collector) -> Result<(), Failure> {
             ops.push(Op::Constrain { lc, err: None, base: None });
         }
     }
-    let prog = Program { curve, tlabel: 1, pre: vec![], ops, owned: false, cap_p: Cap::Exact, cap_v: Cap::Exact, party_cap: 1, seed: 3, pc: 0 };
+    let prog = Program { curve, tlabel: 1, pre: vec![], ops, owned: false, cap_p: Cap::Exact, cap_v: Cap::Exact, party_cap: 1, seed: 3, pc: 0, gens: 0 };
     let r = with_curve!(curve, G => {
         let p = run_prover::<G>(&prog, &ProveOpts::default());
         match p.proof.as_ref() {
